@@ -94,7 +94,12 @@ C10Clause(i) ==
    ELSE ""
 Clauses(i) == {c \in {IF Tr[i].crash # "" THEN "crash" ELSE "", C11Clause(i), C09Clause(i), C07Clause(i), C10Clause(i)} : c # ""}
 
-KnownFinding(e, c) == ""
+(* KF-C07-3: a header that annotate writes or extends may reach beyond byte 4096 of the file (very many holders, or an   *)
+(* existing header far down in the file); the linter reads only the first 4 KiB of a file without snippet marker, so  *)
+(* the tags beyond are not read back although annotate reported success.                                             *)
+KF_C07_BeyondWindow(e) == \E f \in FilesOf(e) : f.post.beyondWindow
+KnownFinding(e, c) == IF c \in {"C07.read-back-differs-from-request", "C07.success-reported-but-requested-information-not-declared"}
+                         /\ KF_C07_BeyondWindow(e) THEN "KF-C07-3" ELSE ""
 TInit == l = 1
 TNext == /\ l <= Len(Tr)
          /\ LET e == Tr[l]
